@@ -21,7 +21,11 @@ package scen
 // (c13.go): accepted on the connection and listed by Conn.GetStreams,
 // negotiated against the host's CURRENT handler table (none => refused),
 // protocol id set, handler invoked on a new goroutine; the two windows between
-// those instants are drawn.
+// those instants are drawn. What the remote PROPOSES is drawn as in mode-switch
+// (c13_nego.go): the exact ID alone, or 1-3 IDs out of the exact one and
+// look-alikes; the host negotiates like a real one (simhost.Host.Negotiate).
+// Every stream the host hands to the DHT handler is an inbound DHT stream for
+// the rules below, whatever ID it was negotiated under.
 //
 // When has the node "switched"? The oracle must not know where inside the node
 // a switch takes effect. It only uses SETTLED points: quiescent points at
@@ -45,7 +49,8 @@ package scen
 //   auto-mode-wrong              settled point: handler table = f(option, last event)
 //                                ("the mode after any sequence of reachability events is determined by the last event")
 //   stray-handler                settled point, client: the host has no DHT handler
-//   open-at-demotion-not-reset   settled point, client: no inbound stream carrying the DHT protocol id is still
+//   open-at-demotion-not-reset   settled point, client: no inbound stream that was handed to the DHT handler and
+//                                carries its negotiated protocol id is still
 //                                open. Every such stream was negotiated before the switch completed (a client
 //                                refuses the negotiation), so it is a stream "already open" at the switch
 //                                ("on switching to client mode it resets inbound DHT streams that are already open")
@@ -83,6 +88,7 @@ import (
 	recpb "github.com/libp2p/go-libp2p-record/pb"
 	"github.com/libp2p/go-libp2p/core/event"
 	"github.com/libp2p/go-libp2p/core/network"
+	"github.com/libp2p/go-libp2p/core/protocol"
 	"github.com/libp2p/go-libp2p/p2p/host/eventbus"
 	"google.golang.org/protobuf/proto"
 
@@ -97,6 +103,7 @@ func init() {
 		Real: []string{"IpfsDHT mode switching with scheduler-owned interleaving of setMode / moveToClientMode / moveToServerMode, the per-message mode check and the FIND_NODE / PING / PUT_VALUE handlers", "records.ValueStore put path", "OnRequestHook"},
 		Stub: []string{"host handler table, connections, stream lists (simhost)", "streams (simhost.Fabric)", "scripted remote peers", "datastore (simds, nothing parks)", "validator (harness rank validator)", "yield before every instrumented lock call (scheduler-owned)"},
 		Faults: []string{"lock_yield", "fault_split_chunk", "fault_park_writes", "fault_nego_window",
+			"fault_alien_proposal", "probe_alien_refused_by_server", "probe_alien_refused_by_client", "probe_alien_then_exact_negotiated",
 			"probe_race_settled_promotion", "probe_race_settled_demotion", "probe_race_demotion_streams_reset",
 			"probe_race_open_during_switch", "probe_race_open_during_demotion_reset", "probe_race_refused_during_switch",
 			"probe_race_request_during_switch", "probe_race_handler_midrequest_at_emit", "probe_race_events_pending_2",
@@ -114,6 +121,7 @@ type c13rReq struct {
 
 type c13rStream struct {
 	name      string
+	proto     protocol.ID     // the ID the stream was negotiated under
 	a, b      *simhost.Stream // a: scripted remote end, b: the node's inbound end
 	handler   network.StreamHandler
 	negoTick  int
@@ -206,6 +214,7 @@ func runC13Race(s *sim.Sim) {
 	s.LockSched = true
 	s.YieldSites["*"] = true
 
+	aliens := c13AlienIDs(c13Proto)
 	var streams []*c13rStream
 	byKey := map[string][2]int{} // record key -> (stream index, request index)
 	epochSettled := false        // the epoch of the current model mode has begun
@@ -391,7 +400,7 @@ func runC13Race(s *sim.Sim) {
 
 	start := func(st *c13rStream) {
 		if !st.protoSet {
-			_ = st.b.SetProtocol(c13Proto)
+			_ = st.b.SetProtocol(st.proto)
 			st.protoSet = true
 		}
 		st.startTick = s.Steps
@@ -437,26 +446,35 @@ func runC13Race(s *sim.Sim) {
 				q := q
 				acts = append(acts, sim.Action{ID: "open:" + q.Name, Do: func() {
 					streamsLeft--
-					hd := h.Handler(c13Proto)
+					props, alienFirst := c13DrawProposals(s, c13Proto, aliens)
+					id, hd := h.Negotiate(props...)
+					serving := h.Handler(c13Proto) != nil
+					c13CountNegotiation(s, c13Proto, id, props, alienFirst, serving)
 					if hd == nil {
-						// a real host refuses the protocol negotiation
-						if !epochSettled {
-							s.Count("probe_race_refused_during_switch")
-						} else {
-							s.Count("probe_race_refused_client")
+						// a real host refuses the protocol negotiation (a client: whatever
+						// is proposed; a server: proposals it has no handler for)
+						if !serving {
+							if !epochSettled {
+								s.Count("probe_race_refused_during_switch")
+							} else {
+								s.Count("probe_race_refused_client")
+							}
 						}
-						s.Tracef("negotiation refused for %s", q.Name)
+						s.Tracef("negotiation refused for %s proposing %s", q.Name, c13ProposalString(props))
 						return
 					}
+					if len(props) > 1 || id != c13Proto {
+						s.Tracef("%s proposes %s: negotiated %q", q.Name, c13ProposalString(props), id)
+					}
 					win := s.Draw("window", 3)
-					p0 := c13Proto
+					p0 := id
 					if win == 1 {
 						p0 = "" // handler looked up, SetProtocol not yet called
 					}
 					conn := h.Net().SetConnected(q.ID, true)
 					a, b := fab.NewPair("in:"+q.Name, p0, q.ID, u.Self.ID, nil, conn)
 					a.Scripted = true
-					st := &c13rStream{name: strings.TrimSuffix(b.Name(), "/b"), a: a, b: b, handler: hd, negoTick: s.Steps, protoSet: win != 1}
+					st := &c13rStream{name: strings.TrimSuffix(b.Name(), "/b"), proto: id, a: a, b: b, handler: hd, negoTick: s.Steps, protoSet: win != 1}
 					if !epochSettled {
 						nDuring++
 						s.Count("probe_race_open_during_switch")
